@@ -63,6 +63,11 @@ namespace occa {
 
         exprNode* getIterationCount();
 
+        // Trip count of a loop whose bounds mention the block iterator of a @tile loop
+        // (_occa_tiled_x), which cancels out: evaluated with that iterator at 0.
+        // False if what is left is not a constant
+        bool getTiledIterationCount(int &count);
+
         exprNode* makeDeclarationValue(exprNode &magicIterator);
 
         bool isInnerLoop();
